@@ -2,7 +2,6 @@ package c11
 
 import (
 	"strings"
-	"unicode/utf8"
 
 	"github.com/antlr4-go/antlr/v4"
 	gen "github.com/nyaruka/goflow/antlr/gen/excellent3"
@@ -56,7 +55,7 @@ func tokStrings(toks []int) []string {
 const (
 	stOK      = iota // parses without error
 	stViable         // the first syntax error is at EOF: a proper prefix of something
-	stTailBad        // the first syntax error is at the last token, which touches the end of the input: only an extension that merges into that token can help
+	stTailBad        // the first syntax error is at one of the last two tokens: only a continuation that re-tokenizes them can help
 	stDead           // the first syntax error is at a token that no extension can change
 )
 
@@ -76,8 +75,10 @@ func (l *firstErr) SyntaxError(rec antlr.Recognizer, sym any, line, col int, msg
 }
 
 // classify runs goflow's generated lexer and parser on s (exactly as excellent.Parse sets them up)
-// and stops at the first syntax error.
-func classify(s string) (st int, lastTok string) {
+// and stops at the first syntax error. For stTailBad it returns the tail of s that a continuation
+// may still re-tokenize: the text from the start of the second-to-last token (the lexer looks at most
+// one token ahead: `1.` is INTEGER DOT but `1.1` is one DECIMAL).
+func classify(s string) (st int, tail string) {
 	l := &firstErr{}
 	lexer := gen.NewExcellent3Lexer(antlr.NewInputStream(s))
 	stream := antlr.NewCommonTokenStream(lexer, 0)
@@ -102,28 +103,58 @@ func classify(s string) (st int, lastTok string) {
 	if l.tokType == antlr.TokenEOF {
 		return stViable, ""
 	}
-	n := utf8.RuneCountInString(s)
-	if l.stop == n-1 && l.start >= 0 {
-		rs := []rune(s)
-		return stTailBad, string(rs[l.start : l.stop+1])
+	stream.Fill()
+	all := stream.GetAllTokens() // whitespace is skipped by the lexer; the last one is EOF
+	n := len(all) - 1
+	// index of the offending token among the real tokens
+	oi := -1
+	for i := 0; i < n; i++ {
+		if all[i].GetStart() == l.start {
+			oi = i
+			break
+		}
 	}
-	return stDead, ""
+	if oi < 0 || oi < n-2 {
+		return stDead, "" // neither the last nor the second-to-last token: no continuation changes it
+	}
+	from := 0
+	if n >= 2 {
+		from = all[n-2].GetStart()
+	}
+	rs := []rune(s)
+	return stTailBad, string(rs[from:])
 }
 
-var mergeCache = map[string]bool{}
+func lexTexts(s string) []string {
+	lexer := gen.NewExcellent3Lexer(antlr.NewInputStream(s))
+	lexer.RemoveErrorListeners()
+	var out []string
+	for t := lexer.NextToken(); t.GetTokenType() != antlr.TokenEOF; t = lexer.NextToken() {
+		out = append(out, t.GetText())
+	}
+	return out
+}
 
-// merges reports whether appending vocabulary token y to a string ending in lexer token last changes
-// that last token (the first token of last+y is not last itself).
-func merges(last string, y int) bool {
-	key := last + "\x00" + vocab[y]
-	if v, ok := mergeCache[key]; ok {
+var mergeCache = map[string][]bool{}
+
+// merging reports, for a tail of one or two tokens, which vocabulary tokens change the existing
+// tokens when appended (the tokens of tail are not a prefix of the tokens of tail+y). Only those
+// continuations can repair an error at one of the last two tokens.
+func merging(tail string) []bool {
+	if v, ok := mergeCache[tail]; ok {
 		return v
 	}
-	lexer := gen.NewExcellent3Lexer(antlr.NewInputStream(last + vocab[y]))
-	lexer.RemoveErrorListeners()
-	t := lexer.NextToken()
-	v := t.GetText() != last
-	mergeCache[key] = v
+	base := lexTexts(tail)
+	v := make([]bool, nVocab)
+	for y := range vocab {
+		ext := lexTexts(tail + vocab[y])
+		same := len(ext) >= len(base)
+		for i := 0; same && i < len(base); i++ {
+			same = ext[i] == base[i]
+		}
+		v[y] = !same
+	}
+	mergeCache[tail] = v
 	return v
 }
 
@@ -161,15 +192,19 @@ func depthOffset(d int) int {
 // shard walks the (tiny) top of the tree and a node is owned (counted, visited) by the shard its
 // key maps to; a node at shardDepth is classified only by its owner, who then owns its whole
 // subtree (inOwned).
-func (w *walker) rec(toks []int, idx int, depth int, st int, lastTok string, inOwned bool) {
+func (w *walker) rec(toks []int, idx int, depth int, st int, tail string, inOwned bool) {
 	if depth >= w.maxLen || w.stopped {
 		return
+	}
+	var allowed []bool
+	if st == stTailBad {
+		allowed = merging(tail)
 	}
 	for _, y := range w.order {
 		if depth > 0 && y == tokGT && toks[depth-1] == tokEQ {
 			continue // `=`+`>` is the same string as the token `=>` (enumerated one level up)
 		}
-		if st == stTailBad && (y == tokSpace || !merges(lastTok, y)) {
+		if allowed != nil && !allowed[y] {
 			continue
 		}
 		cidx := idx*nVocab + y
